@@ -370,6 +370,258 @@ def first_stmt_guard(body, what):
     return (st[0][1], act)
 
 
+
+# ---------------------------------------------------------------------------------------------------------------------
+# callback inventory + thread roles (C05 extension round): which member functions of an engine class contain a call site of a
+# user callback (`= _cbs.on*` copy-then-invoke, or a call of `err(`), from which THREAD ROLE each of them is reachable over the
+# class-internal call graph, and what the TimerService handlers do.
+#   roles:  io     the lambda handed to `std::thread(` in start()
+#           timer  every lambda handed to `_timerService->scheduleAfter(`
+#           api    every member function of a `public:` section (the caller's own thread)
+# A lambda handed to anything else stays part of its enclosing function; a lambda handed to `std::async(` must call no member
+# function at all (it is a helper thread that cannot reach a callback).
+
+ACCESS = re.compile(r"\b(public|private|protected)\s*:(?!:)")
+KEYWORDS = {"if", "for", "while", "switch", "return", "sizeof", "catch", "decltype", "static_cast", "reinterpret_cast", "const_cast",
+            "dynamic_cast", "assert", "throw", "new", "delete", "alignof", "noexcept", "operator", "defined", "static_assert", "else", "do"}
+
+
+def class_body(src, cls):
+    m = re.search(r"\bclass\s+%s\b[^;{]*\{" % re.escape(cls), src)
+    if not m:
+        raise TranslateError("class %s not found" % cls)
+    b = m.end() - 1
+    return src[b + 1:cxxscan.match_brace(src, b)]
+
+
+def class_functions(body, cls):
+    """-> list of (name, access, body text) for the member function DEFINITIONS at class level (nested types are skipped)"""
+    text = blank_strings(body)
+    out = []
+    access = "private"
+    i, n = 0, len(text)
+    seg = 0                      # start of the current declaration
+    while i < n:
+        c = text[i]
+        if c == ";":
+            seg = i + 1
+        elif c == "(":
+            i = _match(text, i, "(", ")", cls)
+        elif c == "{":
+            head = text[seg:i]
+            e = cxxscan.match_brace(text, i)
+            for am in ACCESS.finditer(head):
+                access = am.group(1)
+            head = ACCESS.sub(" ", head)
+            hs = head.strip()
+            if re.match(r"(?:template\s*<[^>]*>\s*)?(struct|class|enum|union|namespace)\b", hs):
+                # nested type: skip the block and its trailing `;`
+                i = e
+                seg = e + 1
+            elif "(" in hs:
+                # function definition: name = identifier before the first `(` at angle/paren depth 0
+                p = hs.index("(")
+                nm = re.search(r"(~?\w+)\s*$", hs[:p])
+                if not nm:
+                    raise TranslateError("%s: cannot name the definition %r" % (cls, hs[:80]))
+                out.append((nm.group(1), access, text[i + 1:e]))
+                i = e
+                seg = e + 1
+            else:
+                # brace initialiser of a data member (`T _x{..};` / `T _x{..}, _y{..};`)
+                i = e
+        i += 1
+    return out
+
+
+def excise_lambdas(fbody, where, opener_regex):
+    """-> (body without the lambdas handed to `opener_regex(`, [lambda bodies])"""
+    lambdas = []
+    while True:
+        m = re.search(opener_regex, fbody)
+        if not m:
+            return fbody, lambdas
+        p = fbody.index("(", m.end() - 1)
+        q = _match(fbody, p, "(", ")", where)
+        args = fbody[p + 1:q]
+        lm = re.search(r"\[[^\]]*\]\s*(?:\([^)]*\))?\s*\{", args)
+        if not lm:
+            raise TranslateError("%s: no lambda handed to %s" % (where, opener_regex))
+        b = lm.end() - 1
+        e = cxxscan.match_brace(args, b)
+        lambdas.append(args[b + 1:e])
+        fbody = fbody[:m.start()] + " EXCISED " + fbody[q + 1:]
+
+
+def callees(body, names):
+    out = set()
+    for m in re.finditer(r"(?<![\w.>:])(?:this\s*->\s*)?(~?\w+)\s*\(", body):
+        if m.group(1) in names and m.group(1) not in KEYWORDS:
+            out.add(m.group(1))
+    return out
+
+
+def callback_sites(body):
+    """direct call sites of a user callback in a function body: (kind, arm) with arm = `catch` inside a catch block else `body`"""
+    sites = []
+    catches = []
+    for m in re.finditer(r"\bcatch\s*\(", body):
+        q = _match(body, body.index("(", m.start()), "(", ")", "catch")
+        b = body.index("{", q)
+        catches.append((b, cxxscan.match_brace(body, b)))
+    for m in re.finditer(r"=\s*_cbs\s*\.\s*(on\w+)\s*;", body):
+        sites.append((m.group(1), "catch" if any(a < m.start() < b for a, b in catches) else "body"))
+    for m in re.finditer(r"(?<![\w.>:])err\s*\(", body):
+        sites.append(("err()", "catch" if any(a < m.start() < b for a, b in catches) else "body"))
+    return sites
+
+
+def role_inventory(repo, rel, cls):
+    src = read(repo, rel)
+    fns = class_functions(class_body(src, cls), cls)
+    names = {f[0] for f in fns}
+    graph, sites, access = {}, {}, {}
+    roots = {"io": set(), "timer": set(), "api": set()}
+    timer_handlers = []
+    n_thread = n_async = 0
+    for name, acc, body in fns:
+        where = "%s::%s" % (cls, name)
+        body, th = excise_lambdas(body, where, r"\bstd::thread\s*\(")
+        body, tm = excise_lambdas(body, where, r"\b_timerService\s*->\s*schedule\w+\s*\(")
+        body, asy = excise_lambdas(body, where, r"\bstd::async\s*\(")
+        n_thread += len(th)
+        n_async += len(asy)
+        for l in th:
+            roots["io"] |= callees(l, names)
+            if callback_sites(l):
+                raise TranslateError("%s: the thread function itself calls a user callback" % where)
+        for l in tm:
+            c = callees(l, names)
+            st = parse_stmts(l, where + " timer lambda")
+            if len(st) != 1 or st[0][0] != "stmt" or len(c) != 1 or not re.match(r"%s\(\w+\)$" % re.escape(sorted(c)[0]), st[0][1]) or callback_sites(l):
+                raise TranslateError("%s: a timer lambda is not a single call of one handler: %r" % (where, st))
+            roots["timer"] |= c
+            timer_handlers.append(sorted(c)[0])
+        for l in asy:
+            if callees(l, names) or callback_sites(l) or re.search(r"\bthis\b|\b_\w+", l):
+                raise TranslateError("%s: a std::async lambda touches the engine object: %r" % (where, squash(l)))
+        if re.search(r"\bstd::(thread|async|jthread)\b|\bpthread_create\b", re.sub(r"std::thread::id|std::this_thread", "", body)):
+            raise TranslateError("%s: creates a thread in a shape the unit does not know" % where)
+        key = name
+        k = 1
+        while key in graph:                  # overloads: name#1, name#2 …; an edge to `name` means an edge to every overload
+            key = "%s#%d" % (name, k)
+            k += 1
+        graph[key] = callees(body, names)
+        sites[key] = callback_sites(body)
+        access[key] = acc
+        if acc == "public":
+            roots["api"].add(name)
+    if n_thread != 1:
+        raise TranslateError("%s: expected exactly one std::thread( with a lambda, found %d" % (cls, n_thread))
+    base = lambda k: k.split("#")[0]
+    reach = {}
+    for role, rs in roots.items():
+        seen = set()
+        todo = [k for k in graph if base(k) in rs]
+        while todo:
+            k = todo.pop()
+            if k in seen:
+                continue
+            seen.add(k)
+            todo += [j for j in graph if base(j) in graph[k] and j not in seen]
+        reach[role] = seen
+    inv = []
+    for key in graph:
+        for kind, arm in sites[key]:
+            roles = [r for r in ("io", "timer", "api") if key in reach[r]]
+            row = (key, kind, arm, "[" + ", ".join('"%s"' % r for r in roles) + "]")
+            if row not in inv:
+                inv.append(row)
+    handlers = []
+    for h in sorted(set(timer_handlers)):
+        hb = [b for (nm, _, b) in fns if nm == h]
+        if len(hb) != 1:
+            raise TranslateError("%s: timer handler %s has %d definitions" % (cls, h, len(hb)))
+        handlers.append((h, parse_stmts(hb[0], "%s::%s" % (cls, h))))
+    return {"inv": inv, "reach": reach, "handlers": handlers, "roots": roots, "async": n_async, "graph": graph, "sites": sites}
+
+
+def handler_shape(stmts):
+    """what a TimerService handler does, as the roles model needs it: `enqueue-ignored` = its body is the single expression statement
+    `enqueue(Command::close(...))` whose result is discarded; anything else is `other`"""
+    if len(stmts) == 1 and stmts[0][0] == "stmt" and re.match(r"enqueue\(Command::close\(sid,.*\)\)$", stmts[0][1]):
+        return "enqueue-ignored"
+    return "other"
+
+
+def roles_text(repo):
+    t = ""
+    for tag, rel, cls in (("tcp", TCP, "TcpEngine"), ("udp", UDP, "UdpEngine")):
+        r = role_inventory(repo, rel, cls)
+        t += "/-- %s: every direct call site of a user callback (`= _cbs.on*` copy-then-invoke, or a call of `err(`): (member function, callback,\n" % cls
+        t += "`catch` when the site sits in an exception arm else `body`, thread roles the function is reachable from over the class-internal call graph) -/\n"
+        t += "def %sCallbackSites : List (String × String × String × List String) := [\n%s]\n" % (
+            tag, ",\n".join('  ("%s", "%s", "%s", %s)' % x for x in r["inv"]))
+        t += "/-- %s: member functions reachable from the TimerService lambdas (`_timerService->schedule*(…, [this…]{ handler(sid); })`) -/\n" % cls
+        t += "def %sTimerRoleFns : List String := [%s]\n" % (tag, ", ".join('"%s"' % x for x in sorted(r["reach"]["timer"])))
+        t += "/-- %s: (TimerService handler, its statements, shape: `enqueue-ignored` = the single statement `enqueue(Command::close(sid, …));`) -/\n" % cls
+        t += "def %sTimerHandlers : List (String × List (String × String) × String) := [%s]\n" % (
+            tag, ", ".join('("%s", %s, "%s")' % (h, lean_pairs(st), handler_shape(st)) for h, st in r["handlers"]))
+        t += "/-- %s: public member functions (API role) from which a callback site is reachable, with the sites' functions -/\n" % cls
+        api = []
+        for root in sorted(r["roots"]["api"]):
+            seen, todo = set(), [k for k in r["graph"] if k.split("#")[0] == root]
+            while todo:
+                k = todo.pop()
+                if k in seen:
+                    continue
+                seen.add(k)
+                todo += [j for j in r["graph"] if j.split("#")[0] in r["graph"][k] and j not in seen]
+            hit = sorted({k + ":" + arm for k in seen for (_, arm) in r["sites"][k]})
+            if hit:
+                api.append((root, " ".join(hit)))
+        t += "def %sApiCallbackEntries : List (String × String) := %s\n" % (tag, lean_pairs(api))
+        t += "def %sAsyncLambdas : Nat := %d\n" % (tag, r["async"])
+        if tag == "tcp":
+            # does the shutdown drain cancel the safety-net timers of the sessions it closes? (directly or through closeNow/cancel*)
+            seen, todo = set(), ["shutdownDrain"]
+            while todo:
+                k = todo.pop()
+                if k in seen or k == "process":
+                    continue                      # process() is the drain's FIRST statement (pinned): what it dispatches is not the drain's loop
+                seen.add(k)
+                todo += [j for j in r["graph"] if j.split("#")[0] in r["graph"].get(k, ()) and j not in seen]
+            src = read(repo, rel)
+            direct = re.search(r"_timerService\s*->\s*cancel", one_body(src, r"\bvoid\s+shutdownDrain\s*\(", "TcpEngine::shutdownDrain")) is not None
+            cancels = direct or any(re.match(r"cancel\w*Time(r|out)s?$", k) for k in seen)
+            t += "/-- TcpEngine::shutdownDrain cancels the TimerService timers of the sessions it closes (it reaches `cancel*Timeout`/`cancelAllTimers`\n"
+            t += "or calls `_timerService->cancel`; `process()`, its first statement, not counted) -/\n"
+            t += "def tcpDrainCancelsTimers : Bool := %s\n" % ("true" if cancels else "false")
+            # start(): the fresh eventfd is published and the queue reopened in ONE _cmdMutex critical section (the TimerService role may
+            # be inside enqueue() at any time, also during a restart); cleanupStartFail closes the eventfd under the same mutex
+            def locked_blocks(body, what):
+                out, rest = [], body
+                for m in re.finditer(r"\{\s*std::lock_guard\s*<\s*std::mutex\s*>\s*\w+\s*\(\s*_cmdMutex\s*\)\s*;", body):
+                    e = cxxscan.match_brace(body, m.start())
+                    out.append(body[m.end():e])
+                    rest = rest.replace(body[m.start():e + 1], " ")
+                return out, rest
+            st_body = blank_strings(one_body(src, r"\bStartResult\s+start\s*\(", "TcpEngine::start"))
+            blocks, outside = locked_blocks(st_body, "start")
+            pub = [squash(x) for b in blocks for x in b.split(";") if x.strip()]
+            wr_out = len(re.findall(r"(?<![\w.>])_eventFd\s*=(?!=)", outside)) + len(re.findall(r"(?<![\w.>])_cmdsClosed\s*=(?!=)", outside))
+            cf_body = blank_strings(one_body(src, r"\bvoid\s+cleanupStartFail\s*\(", "TcpEngine::cleanupStartFail"))
+            cblocks, coutside = locked_blocks(cf_body, "cleanupStartFail")
+            cf_ok = any(re.search(r"::close\s*\(\s*_eventFd\s*\)", b) and re.search(r"_eventFd\s*=\s*-1", b) for b in cblocks) and \
+                not re.search(r"(?<![\w.>])_eventFd\s*=(?!=)", coutside)
+            t += "/-- TcpEngine::start: the statements of its `_cmdMutex` critical section(s), and the number of writes of `_eventFd` / `_cmdsClosed` outside them -/\n"
+            t += "def tcpStartLockedStmts : List String := [%s]\n" % ", ".join('"%s"' % x for x in pub)
+            t += "def tcpStartUnlockedQueueWrites : Nat := %d\n" % wr_out
+            t += "/-- TcpEngine::cleanupStartFail closes `_eventFd` (and resets it) under `_cmdMutex` only -/\n"
+            t += "def tcpStartFailClosesEventFdUnderLock : Bool := %s\n" % ("true" if cf_ok else "false")
+    return t
+
 def gen(repo):
     src = read(repo, FILE)
     impl = struct_body(src, "Transport::Impl")
@@ -535,5 +787,6 @@ def gen(repo):
     rows += engine_rows(repo, UDP, "udp", {"mutex": "_qmx", "closed": "_qClosed", "q": "_q", "cmd": "Cmd", "case": "CmdType", "doadd": "addListenerDo"})
     t += "/-- per engine function, in textual order: (event, object, engine mutexes held); member names normalised -/\n"
     t += "def engine : List (String × List (String × String × String)) := [\n" + lean_rows(rows) + "]\n"
+    t += roles_text(repo)
     t += "end Iora.Gen.TeardownSkel\n"
     return "IoraModel/Gen/TeardownSkel.lean", t
